@@ -121,7 +121,7 @@ theorem keeps_exit {σ : List Scope} {T : Nat} {curP : List Nat} {b b' : B} {c0 
     (hσ : sk i ∉ scopeKeys σ) : Keeps σ T curP b b' :=
   fun _ hR => hR.exit h hσ
 
-theorem ReqOk.retarget {b : B} {T T' : Nat} {curP : List Nat} {p : Nat × Nat} (h : ReqOk b T [] p) : ReqOk b T' curP p := by
+theorem ReqOk.retarget {σ : List Scope} {b : B} {T T' : Nat} {curP : List Nat} {p : Nat × Nat} (h : ReqOk σ b T [] p) : ReqOk σ b T' curP p := by
   rcases h with h | h | ⟨h1, _⟩
   · exact Or.inl h
   · exact Or.inr (Or.inl h)
@@ -437,9 +437,9 @@ theorem keeps_same {σ : List Scope} {T : Nat} {curP : List Nat} {b b' : B} (S :
   intro R h
   refine ⟨?_, ?_, ?_, ?_, ?_, fun x hx => by rw [S.errors]; exact h.exempt x hx⟩
   · intro p hp
-    rcases h.req p hp with h1 | ⟨c, t, h1⟩ | ⟨h1, h2⟩
+    rcases h.req p hp with h1 | ⟨c, t, htg, h1⟩ | ⟨h1, h2⟩
     · exact Or.inl (S.edges p h1)
-    · exact Or.inr (Or.inl ⟨c, t, S.w.ppat h1 (by rw [hd]) (fun _ _ _ _ => by rw [N.finallySections])⟩)
+    · exact Or.inr (Or.inl ⟨c, t, htg, S.w.ppat h1 (by rw [hd]) (fun _ _ _ _ => by rw [N.finallySections])⟩)
     · exact Or.inr (Or.inr ⟨h1, startedAt_of_same S.finallySub S.pendingFinally h2⟩)
   · intro x hx; obtain ⟨L, hL, h1⟩ := h.brk x hx; exact ⟨L, hL, pj _ _ _ _ h1⟩
   · intro x hx; obtain ⟨L, hL, h1⟩ := h.cont x hx; exact ⟨L, hL, pj _ _ _ _ h1⟩
@@ -456,8 +456,9 @@ theorem keeps_endStatement {σ : List Scope} {T : Nat} {curP : List Nat} (b : B)
 
 theorem Pend.out_of_loop {σ : List Scope} {i : Nat} {T : Nat} {curP : List Nat} {b : B} {R : Flow}
     (h : Pend (Scope.loop i :: σ) T curP b R) :
-    Pend σ T curP b { req := R.req, ret := R.ret, raise := R.raise, exempt := R.exempt } :=
-  ⟨h.req, fun _ hx => (List.not_mem_nil hx).elim, fun _ hx => (List.not_mem_nil hx).elim, h.ret, h.raise, h.exempt⟩
+    Pend σ T curP b { ret := R.ret, raise := R.raise, exempt := R.exempt } :=
+  ⟨fun _ hx => (List.not_mem_nil hx).elim, fun _ hx => (List.not_mem_nil hx).elim, fun _ hx => (List.not_mem_nil hx).elim,
+   h.ret, h.raise, h.exempt⟩
 
 /-- the loop header node, created from a `Src` set -/
 theorem loopHeader_src (T : Nat) (curP : List Nat) (b : B) (i h : Nat) (cur : List Nat) (hc : ∀ x, x ∈ cur → Src b T curP x) :
@@ -662,13 +663,42 @@ theorem lemB_loop (σ : List Scope) (i h : Nat) (lams : List Nat) (body orelse :
       cases h'; rfl
     subst this
     exact x5c x hpj
+  -- the body's pending pairs: those of the loop's own jumps are edges by now
+  have hreqB : ∀ p, p ∈ (flowBlock body [h]).req → ReqOk σ ((b6.exitSection i).endStatement i) T curP p := by
+    intro p hp'
+    rcases IHb.pend.req p hp' with h1 | ⟨c, t, htg, hpp⟩ | ⟨h1, _⟩
+    · exact Or.inl (e58 p (X5.edges p h1))
+    · have keep6 : ∀ c' t', PPat b5 c' t' p → PPat b6 c' t' p := fun c' t' h' => PPat.mono fo.f fo.x pre5.old pre5.lin h'
+      rcases htg with hL | ⟨hc', hF⟩
+      · have hti : t = i := by
+          have h' : some i = some t := hL
+          cases h'; rfl
+        subst hti
+        cases c with
+        | true => exact Or.inl (e58 p (X5.ppe p hpp))
+        | false =>
+          have h5 := X5.ppk false t p hpp (fun e => by cases e.1)
+          have h7 := X7.ppe p (keep6 false t h5)
+          exact Or.inl (by rw [B.endStatement_edges]; exact h7)
+      · subst hc'
+        have hF' : fnOf σ = some t := hF
+        have hti : t ≠ i := fun e => hσi (e ▸ enclosingFinally_target_key .fn σ t hF')
+        have h5 := X5.ppk false t p hpp (fun e => hti e.2)
+        have h7 := X7.ppk false t p (keep6 false t h5) (fun e => hti e.2)
+        have P7 : Pend σ T curP (b6.exitSection i) { req := [p], normal := [] } :=
+          Pend.of_req σ T curP _ [p] [] (fun q hq => by
+            simp only [List.mem_singleton] at hq
+            subst hq
+            exact Or.inr (Or.inl ⟨false, t, Or.inr ⟨rfl, hF'⟩, h7⟩))
+        exact (k78 T curP _ P7).req p (by simp)
+    · cases h1
   refine ⟨⟨?_, ?_, ?_, ?_, ?_, ?_⟩, ?_, ?_⟩
   · intro p hp'
     simp only [Flow.seq, loopFlow, emit, List.nil_append, List.mem_append] at hp'
     rcases hp' with (hp' | hp') | hp' | hp' | hp' | hp'
     · exact A.req p (List.mem_append.mpr (Or.inl hp'))
     · exact A.req p (List.mem_append.mpr (Or.inr hp'))
-    · exact Bd.req p hp'
+    · exact hreqB p hp'
     · simp only [cross, List.mem_map] at hp'
       obtain ⟨x, hx, rfl⟩ := hp'
       exact Or.inl (e58 _ (x5l x (IHb.norm x hx)))
